@@ -181,12 +181,16 @@ class Ctx:
         anything but "All N obligations proved" is inconclusive (a statement about the model, never a violation)."""
         out = os.path.join(self.scratch, module + ".tlapm.out")
         t = time.time()
-        with open(out, "w") as fh:
-            p = subprocess.run(["timeout", str(timeout), "tlapm", "--threads", str(max(2, NCPU - 4)), "--cache-dir",
-                                os.path.join(self.scratch, "tlacache-" + module), module + ".tla"],
-                               cwd=self.specdir, stdout=fh, stderr=subprocess.STDOUT)
-        txt = open(out, errors="replace").read()
-        mo = re.search(r"All (\d+) obligations? proved", txt)
+        # back-end time limits are per obligation; on a loaded machine they are stretched, and stretched again once
+        for stretch in (4, 20):
+            with open(out, "w") as fh:
+                p = subprocess.run(["timeout", str(timeout), "tlapm", "--threads", str(max(2, NCPU - 4)), "--stretch", str(stretch),
+                                    "--cache-dir", os.path.join(self.scratch, "tlacache-" + module), module + ".tla"],
+                                   cwd=self.specdir, stdout=fh, stderr=subprocess.STDOUT)
+            txt = open(out, errors="replace").read()
+            mo = re.search(r"All (\d+) obligations? proved", txt)
+            if p.returncode == 0 and mo:
+                break
         if p.returncode != 0 or not mo:
             raise Inconclusive("tlapm %s: proofs not checked (rc=%d):\n%s" % (module, p.returncode, txt[-2000:]))
         n = int(mo.group(1))
